@@ -163,3 +163,52 @@ theorem decodeInputs_rbound (e : Endpoint) (now : Nat) (start : Frame) (bytes : 
       exact ⟨this.1, this.2, hmp1⟩
 
 end Ggrs
+
+namespace Ggrs
+open Codec (Bytes)
+
+/-- The bound is kept by every step of the link system. -/
+theorem RBound_step (S : SStream) (hsize : S.width ≤ 65535) (st st' : Link) (h : LInv S st)
+    (hb : RBound st.b) (hstep : LStep S st st') : RBound st'.b ∧ st'.b.maxPrediction = st.b.maxPrediction := by
+  cases hstep with
+  | submit now inputs cs a' _ _ _ _ _ => exact ⟨hb, rfl⟩
+  | resend now cs a' _ => exact ⟨hb, rfl⟩
+  | packet now m cs d start ack bytes hm hbody =>
+    obtain ⟨n, hok, hby, _, hfirst⟩ := h.packets m hm cs d start ack bytes hbody
+    subst hby
+    obtain ⟨_, _, _, _, _, _, _, _, hacc⟩ := L_stream_packet st.b S now start n h.rinv hok.pos hok.lo hok.hi
+      (fun h0 => Classical.byContradiction fun hc => hfirst hc h0) hsize hok.cap
+    obtain ⟨a, _, c⟩ := decodeInputs_rbound st.b now start _ hb h.rinv.nonempty hacc
+    exact ⟨a, c⟩
+  | ack m x _ _ => exact ⟨hb, rfl⟩
+  | piggyAck x _ => exact ⟨hb, rfl⟩
+
+/-- **C18, remembered received inputs (every schedule of the link).** -/
+theorem RBound_run (S : SStream) (hsize : S.width ≤ 65535) (st st' : Link) (h : LInv S st) (hb : RBound st.b)
+    (hrun : LStar S st st') :
+    RBound st'.b ∧ st'.b.maxPrediction = st.b.maxPrediction ∧
+    st'.b.recvInputs.length ≤ 2 * st.b.maxPrediction + 1 := by
+  have key : RBound st'.b ∧ st'.b.maxPrediction = st.b.maxPrediction ∧ LInv S st' := by
+    induction hrun with
+    | refl => exact ⟨hb, rfl, h⟩
+    | step st1 st2 _ hstep ih =>
+      obtain ⟨hb1, hm1, hl1⟩ := ih
+      obtain ⟨hb2, hm2⟩ := RBound_step S hsize st1 st2 hl1 hb1 hstep
+      exact ⟨hb2, hm2.trans hm1, LInv_step S hsize st1 st2 hl1 hstep⟩
+  refine ⟨key.1, key.2.1, ?_⟩
+  have := RBound_length st'.b key.1
+  rw [key.2.1] at this
+  exact this
+
+/-- A fresh endpoint's receive map: the blank reference at NULL_FRAME. -/
+theorem RBound_new (handles : List Nat) (peerAddr numPlayers localPlayers maxPrediction dt dn fps : Nat)
+    (desync : Option Nat) (magic now : Nat) :
+    RBound (Endpoint.new handles peerAddr numPlayers localPlayers maxPrediction dt dn fps desync magic now) := by
+  refine ⟨by simp [Endpoint.new, KSorted], ?_⟩
+  intro p hp
+  simp only [Endpoint.new, List.mem_singleton] at hp
+  left
+  rw [hp]
+  exact ⟨rfl, by simp [Endpoint.new, Endpoint.lastRecvFrame]⟩
+
+end Ggrs
